@@ -146,6 +146,9 @@ pub fn main(args: &[String]) {
     let (mut runs, mut viol, mut drift, mut skipped) = (0u64, 0u64, 0u64, 0u64);
     let mut samples = vec![];
     for (ji, job) in jobs.iter().enumerate() {
+        if let Some(p) = args.get(2) {
+            std::fs::write(p, ji.to_string()).ok();      // a hang or a death of the process is attributed to this job
+        }
         let par = Par::from_json(&job["par"]);
         let beh = &job["beh"];
         let hist = beh["hist"].as_array().unwrap();
